@@ -31,6 +31,7 @@ func init() { Props["C14"] = runC14 }
 func runC14(c *Ctx) {
 	c14Escapers(c)
 	c14Forms(c)
+	c14IdpFlow(c)
 	c14URLParse(c)
 	c14Locations(c)
 	c14Elements(c)
